@@ -16,7 +16,7 @@ EXTENDS Paths, FiniteSets, TLC, Json
 
 Alphabet == {"..", ".", "", "A", "B", "...", "A..B", "destZ"}    \* destZ: a sibling whose name merely starts like the destination
 Stems == {"S", "..", ".", "", "A..B"}
-DestShapes == {"abs", "rel", "trailing"}
+DestShapes == {"abs", "rel", "trailing", "dotdot", "dotdot2"}
 Kinds == {"file", "dir", "nested"}
 
 VARIABLES comps, leadingSep, kind, stem, destShape
@@ -32,6 +32,8 @@ Spec == Init /\ [][Next]_vars
 Dest == CASE destShape = "abs" -> [abs |-> TRUE, comps |-> <<"R", "dest">>]
           [] destShape = "trailing" -> [abs |-> TRUE, comps |-> <<"R", "dest", "">>]
           [] destShape = "rel" -> [abs |-> FALSE, comps |-> <<"reldest">>]
+          [] destShape = "dotdot" -> [abs |-> FALSE, comps |-> <<"..">>]            \* relative destinations made only of parent references
+          [] destShape = "dotdot2" -> [abs |-> FALSE, comps |-> <<"..", "..">>]
 \* for a nested archive the entry name gets the stem appended as its last component ("<stem>.zip")
 EntryComps == IF kind = "nested" THEN Append(comps, stem) ELSE comps
 Target == Join(Dest, [abs |-> FALSE, comps |-> EntryComps])
